@@ -562,14 +562,21 @@ impl World {
                 _ = n => {}
                 _ = tokio::time::sleep_until(deadline) => {
                     let mut pend: Vec<String> = Vec::new();
+                    // (structured for the trace specification: endpoints with a read waiting, everything else)
+                    let mut reads: Vec<String> = Vec::new();
+                    let mut others: Vec<String> = Vec::new();
                     for (k, e) in &self.eps {
                         if ep.is_some_and(|x| x != k) { continue; }
                         for d in e.shared.describe() {
+                            if d.starts_with("read") { reads.push(k.to_string()); } else { others.push(format!("{k}.{d}")); }
                             pend.push(format!("{k}.{d}"));
                         }
                     }
                     pend.sort();
-                    ev!(self.tracer, "wait_timeout", "ep": ep.unwrap_or(""), "what": what.unwrap_or("all"), "pending": pend);
+                    reads.sort();
+                    others.sort();
+                    ev!(self.tracer, "wait_timeout", "ep": ep.unwrap_or(""), "what": what.unwrap_or("all"), "pending": pend,
+                        "reads": reads, "others": others);
                     return;
                 }
             }
